@@ -1,5 +1,5 @@
 //verif:pkg internal/spynode
-//verif:kit memstore nodekit synckit worldkit
+//verif:kit memstore nodekit synckit worldkit interleave
 package spynode
 
 // C10 — a crash after any storage mutation, or any single failing storage
